@@ -124,9 +124,13 @@ def extract(verbose=False):
     d = os.path.join(CACHE, key)
     marker = os.path.join(d, "ok.json")
     if os.path.exists(marker):
-        info = json.load(open(marker))
-        info["cached"] = True
-        return d, info
+        try:
+            info = json.load(open(marker))
+            os.utime(d, None)  # least-recently-used order for _prune
+            info["cached"] = True
+            return d, info
+        except (OSError, ValueError):
+            pass  # pruned by a concurrent run between the test and the read: extract again
     os.makedirs(CACHE, exist_ok=True)
     t0 = time.time()
     work = tempfile.mkdtemp(prefix="jsv-x-")
@@ -182,7 +186,10 @@ def _prune(keep=int(os.environ.get("JSV_CACHE_KEEP", "8"))):
         ents = [os.path.join(CACHE, e) for e in os.listdir(CACHE)]
         ents = [e for e in ents if os.path.isdir(e)]
         ents.sort(key=lambda e: os.path.getmtime(e), reverse=True)
+        now = time.time()
         for e in ents[keep:]:
+            if now - os.path.getmtime(e) < 900:
+                continue  # possibly in use by a concurrent run
             shutil.rmtree(e, ignore_errors=True)
     except OSError:
         pass
